@@ -9,6 +9,9 @@ Claimed clauses only (DESIGN.md section 4, C07):
                and final bytes
   ordered    : each file's block of failure lines is ordered by (line, column,
                rule id) and contains no line twice; files appear in sorted order
+  in range   : every reported (line, column) exists in the scanned file - an
+               absolute statement evaluated on the executions this check
+               performs anyway (pool documents), not a search over documents
   wrapped    : an exception injected into any rule callback reaches the user as
                a plugin error naming the rule and the action, never a traceback
 """
@@ -35,7 +38,7 @@ ASSUMPTIONS = [
     "only the clauses that meet nondeterminism or faults are claimed; 'position exists in the file' and 'no rule crashes on any document' are input-quantified and not decided here",
     "worlds differ only in nondeterminism the code does not control; everything else (documents, names, flags) is identical",
 ]
-PROBES = ["worlds_compared", "failure_blocks_checked", "wrapped_checked", "mode:scan", "mode:fix", "rules:alone", "rules:all", "multi_rule_same_position"]
+PROBES = ["positions_checked", "worlds_compared", "failure_blocks_checked", "wrapped_checked", "mode:scan", "mode:fix", "rules:alone", "rules:all", "multi_rule_same_position"]
 
 
 def generate(rng, tier, index):
@@ -168,6 +171,35 @@ def evaluate(sc):
                 keys.append((int(match.group("line")), int(match.group("col")), match.group("rule")))
             if len(set(k[:2] for k in keys)) < len(keys):
                 stats["multi_rule_same_position"] += 1
+            # in range: the line exists, the column lies within it (or one past its end)
+            plain = name[2:] if name.startswith("./") else name
+            data = unb64(sc["files"][plain]["b64"]) if plain in sc["files"] else None
+            if data is not None:
+                try:
+                    doc_lines = data.decode("utf-8").replace("\r\n", "\n").replace("\r", "\n").split("\n")
+                except UnicodeDecodeError:
+                    doc_lines = None
+                if doc_lines is not None and sc["mode"] == "scan":
+                    stats["positions_checked"] += len(keys)
+                    for line_number, column, rule in keys:
+                        if not 1 <= line_number <= len(doc_lines):
+                            out.append(
+                                violation(
+                                    "C07/range",
+                                    "C07/range|line-beyond-file|%s" % rule,
+                                    {"file": name, "document": sc["labels"].get(plain), "reported": [line_number, column, rule], "lines_in_file": len(doc_lines)},
+                                )
+                            )
+                            break
+                        if not 1 <= column <= len(doc_lines[line_number - 1]) + 1:
+                            out.append(
+                                violation(
+                                    "C07/range",
+                                    "C07/range|column-beyond-line|%s" % rule,
+                                    {"file": name, "document": sc["labels"].get(name), "reported": [line_number, column, rule], "line_length": len(doc_lines[line_number - 1])},
+                                )
+                            )
+                            break
             if keys != sorted(keys):
                 out.append(violation("C07/ordered", "C07/ordered|not-sorted", {"file": name, "document": sc["labels"].get(name), "lines": lines[:12]}))
                 break
